@@ -4,7 +4,7 @@ from ..rules import drivers, perm, save
 META = {
     "title": "Resuming from an autosave gives the same results as an uninterrupted run",
     "technique": "static analysis: sibling entry points must apply the same post-processing (index-space "
-                 "typing of the returned results), must-pass-through of the autosave removal, pickle hook pairing",
+                 "typing of the returned results), must-pass-through of the autosave removal, pickle hook pairing; whole-dictionary frame condition of the pickle hooks; who-may-call of save_simulation",
     "design_ref": "DESIGN.md §5 C26",
     "explanation": "ENTRY: run (via _run_from_sequence_data) and resume both return results typed register-order "
                    "by PERM, i.e. both go through permute_results under the reordering flag; _run removes the "
